@@ -185,8 +185,10 @@ def table():
             continue
         m = json.load(open(mp))
         r = m.get("result", {})
-        rows.append("| %s | %s | %s | %s | %s |" % (mid, m.get("property"), m.get("needs", "")[:110],
-                                                  ", ".join(r.get("detected_by", [])) or "-",
+        det = ", ".join(r.get("detected_by", [])) or "-"
+        if m.get("status"):
+            det = "%s (%s)" % (det, m["status"])
+        rows.append("| %s | %s | %s | %s | %s |" % (mid, m.get("property"), m.get("needs", "")[:110], det,
                                                   "; ".join(s for c in r.get("detected_by", []) for s in r["checks"][c]["signatures"][:2])[:120]))
     print("| seeded change | property | needs | detected by | signatures |\n|---|---|---|---|---|")
     print("\n".join(rows))
